@@ -4,7 +4,7 @@
    returns BEFORE resizing, or resizes p_jh to N; every routine of the step (from_inertial, kepler/com/
    interaction steps, to_inertial) indexes p_jh[i] for i < N -- abstracted as [touch].
    part2 of WHFast is guarded by  p_jh==NULL || N_allocated != N  (since 5b9aacc);
-   part2 of SABA is guarded by  p_jh==NULL  only. *)
+   part2 of SABA re-checks the same plus SABA's own part1 errors (since 14faedc). *)
 From Coq Require Import List Bool Arith Lia ZifyBool.
 From RV Require Import C14.Model C14.ProofsA.
 Import ListNotations.
@@ -24,11 +24,13 @@ Definition whfast_step (err : bool) (n : nat) (w : wh) : wh * bool :=
   let '(w1, failed) := wh_init err n w in
   let w2 := if failed then w1 else touch n w1 in
   if (palloc w2 =? 0) || negb (palloc w2 =? n) then (w2, false) else (touch n w2, true).
-(* SABA: part1 returns early on its own errors or when whfast_init fails; part2 checks p_jh==NULL only *)
-Definition saba_step (err : bool) (n : nat) (w : wh) : wh * bool :=
-  let '(w1, failed) := wh_init err n w in
+(* SABA: part1 returns on its own errors ([own]: variational configuration present, non-Jacobi coordinates,
+   invalid type) before calling reb_integrator_whfast_init, or when that init fails; part2 re-checks
+   p_jh==NULL || N_allocated != N || stages==0 || N_var_config>0 || coordinates!=JACOBI  (since 14faedc) *)
+Definition saba_step (own err : bool) (n : nat) (w : wh) : wh * bool :=
+  let '(w1, failed) := if own then (w, true) else wh_init err n w in
   let w2 := if failed then w1 else touch n w1 in
-  if palloc w2 =? 0 then (w2, false) else (touch n w2, true).
+  if (palloc w2 =? 0) || negb (palloc w2 =? n) || own then (w2, false) else (touch n w2, true).
 
 Lemma touch_safe : forall cnt i alloc ob, i + cnt <= alloc -> touch_from cnt i alloc ob = ob.
 Proof.
@@ -51,15 +53,22 @@ Proof.
     + rewrite (touch_safe n 0 n) by lia. apply touch_safe. lia.
 Qed.
 
-(* SABA with the guard it has today: the same claim is FALSE -- p_jh left from N = 4, N = 6, part1 fails *)
-Theorem saba_step_safe_refuted : exists err n w, woob w = 0 /\ 0 < woob (fst (saba_step err n w)) /\ snd (saba_step err n w) = true.
-Proof. exists true, 6, (mkW 4 0). vm_compute. repeat split; lia. Qed.
-(* ... it holds when init succeeds, or when N did not grow past the allocation *)
-Theorem saba_step_safe_partial : forall err n w, (err = false \/ n <= palloc w) -> woob (fst (saba_step err n w)) = woob w.
+(* SABA: the same for every earlier allocation, every N and every combination of its own errors and the
+   errors of init; when part1 failed on one of SABA's own errors nothing is touched and t does not advance;
+   when init failed the step runs only if the allocation already equals N *)
+Theorem saba_step_safe : forall own err n w,
+  woob (fst (saba_step own err n w)) = woob w /\
+  (own = true -> saba_step own err n w = (w, false)) /\
+  (err = true -> fst (saba_step own err n w) = w /\ snd (saba_step own err n w) = false \/ palloc w = n).
 Proof.
-  intros err n w H. unfold saba_step, wh_init. destruct err.
-  - destruct H as [H|H]; [discriminate|]. destruct (palloc w =? 0); cbn; auto. apply touch_safe. lia.
-  - cbn [fst snd palloc woob touch]. destruct (n =? 0) eqn:E; cbn.
-    + apply touch_safe. lia.
-    + rewrite (touch_safe n 0 n) by lia. apply touch_safe. lia.
+  intros own err n w. unfold saba_step, wh_init. destruct own.
+  - rewrite orb_true_r. cbn. repeat split; auto.
+  - split; [|split; [discriminate|]].
+    + destruct err.
+      * destruct ((palloc w =? 0) || negb (palloc w =? n) || false) eqn:E; cbn; auto.
+        unfold touch; cbn. apply touch_safe. lia.
+      * cbn [fst snd palloc woob touch]. destruct ((n =? 0) || negb (n =? n) || false) eqn:E; cbn.
+        -- apply touch_safe. lia.
+        -- rewrite (touch_safe n 0 n) by lia. apply touch_safe. lia.
+    + intros ->. destruct ((palloc w =? 0) || negb (palloc w =? n) || false) eqn:E; cbn; auto. right. lia.
 Qed.
